@@ -109,6 +109,11 @@ def run_tomography(n, prog, vin, env, acc, order=None, threshold=None):
         # every measurement setting comes back with its own total (different shot numbers per setting)
         return [tomo.outcome_frequencies(c, n, vin, scale * (1 + 0.37 * j)) for j, c in enumerate(circuits)]
 
+    class Runner:           # the experiment as a method of the object that owns the apparatus
+        def run(self, circuits):
+            return experiment(circuits)
+
+    callback = Runner().run if (len(prog) + sum(vin)) % 3 == 1 else experiment
     acc.tick("executions"); acc.tick("transitions")
     saved = None
     if order is not None:
@@ -118,10 +123,10 @@ def run_tomography(n, prog, vin, env, acc, order=None, threshold=None):
         saved = tutils.__dict__.get("set")
         tutils.set = fake_set
     try:
-        st = StateTomography(n, base, experiment)
+        st = StateTomography(n, base, callback)
         rho = st.process()
     except Exception as e:  # noqa: BLE001
-        acc.violation("tomography_raises", case, {"error": repr(e)})
+        acc.violation("tomography_raises", case, {"error": repr(e), "callback": "bound method" if callback is not experiment else "function"})
         return
     finally:
         if order is not None:
@@ -208,6 +213,13 @@ def run_reuse(n, prog, edit, vin, env, acc):
         acc.violation("second_process_call_ignores_edited_base_circuit", case,
                       {"max_err": float(np.abs(rho2 - want).max()),
                        "equals_first_result": bool(np.allclose(rho2, rho1, atol=1e-8))})
+    else:
+        try:
+            f2 = st.fidelity(want)
+            if abs(f2 - 1) > 1e-6:
+                acc.violation("fidelity_not_one", {**case, "after": "second process()"}, {"fidelity": float(f2)})
+        except Exception as e:  # noqa: BLE001
+            acc.violation("fidelity_raises", case, {"error": repr(e)})
     acc.state("reuse", n, np.round(want, 8))
 
 
